@@ -1453,14 +1453,14 @@ fn parse_num(s: &str) -> Num {
     };
     Num { int: int.to_string(), dot, frac: frac.to_string(), exp }
 }
-fn konst_s() -> impl Strategy<Value = Prim> {
+fn konst_s() -> impl Strategy<Value = Prim> + Clone + use<> {
     (
         prop_oneof![5 => Just(Konst::Pi), 3 => Just(Konst::Tau), 1 => Just(Konst::Inf), 1 => Just(Konst::Nan), 1 => Just(Konst::DotInf), 1 => Just(Konst::DotNan)],
         prop_oneof![6 => Just(0u8), 1 => Just(0xffu8), 1 => any::<u8>()],
     )
         .prop_map(|(k, m)| Prim::Const(k, m))
 }
-fn sexa_s() -> impl Strategy<Value = Sexa> {
+fn sexa_s() -> impl Strategy<Value = Sexa> + Clone + use<> {
     let two = || prop_oneof![3 => (0u32..60).prop_map(|v| v.to_string()), 2 => (0u32..60).prop_map(|v| format!("{v:02}"))];
     (
         prop_oneof![4 => (0u32..400).prop_map(|v| v.to_string()), 1 => "[0-9]{1,15}".prop_map(|s| s), 1 => (0u32..24).prop_map(|v| format!("{v:02}"))],
@@ -1598,7 +1598,7 @@ fn pos_s() -> impl Strategy<Value = Pos> + Clone {
 fn target_s() -> impl Strategy<Value = Target> + Clone {
     prop_oneof![Just(Target::F64), Just(Target::F32)]
 }
-fn damage_s() -> impl Strategy<Value = Damage> {
+fn damage_s() -> impl Strategy<Value = Damage> + Clone + use<> {
     prop_oneof![
         Just(Damage::UnclosedParen),
         Just(Damage::ExtraClose),
@@ -1620,7 +1620,7 @@ const SOUP: [&str; 67] = [
     "\t", "\n", "\r", "x", "0x1F", "infinity", "Infinity", "NaN", "é", "\u{a0}", "\u{c}", "\u{b}", "\u{2028}", "\u{feff}", "!", "#",
     "\"", "'", "\\", "1.5", "-.inf", "+.NAN", "1e400", "00",
 ];
-fn soup_s() -> impl Strategy<Value = String> {
+fn soup_s() -> impl Strategy<Value = String> + Clone + use<> {
     proptest::collection::vec(proptest::sample::select(SOUP.to_vec()), 0..12).prop_map(|v| v.concat())
 }
 
@@ -2107,9 +2107,10 @@ fn spellings32(bits: u32, how: u8) -> Option<String> {
 
 fn generate(ctx: &mut Ctx<C19>) {
     let thorough = ctx.tier == Tier::Thorough;
-    let st: Stats = RefCell::new(BTreeMap::new());
-    let nt = |c: &Case| {
-        observe(&st, c);
+    let st: std::rc::Rc<Stats> = std::rc::Rc::new(RefCell::new(BTreeMap::new()));
+    let st2 = st.clone();
+    let nt = move |c: &Case| {
+        observe(&st2, c);
         nontrivial(c)
     };
     let common = || (style_s(), pos_s(), target_s());
@@ -2117,19 +2118,19 @@ fn generate(ctx: &mut Ctx<C19>) {
     // --- random expressions ------------------------------------------------------------------
     let strat = (tidy_s(expr_s(1, 2)), prop_oneof![4 => Just(0u8), 1 => ws_s()], tag_s(3), common())
         .prop_map(|(e, t, tag, (style, pos, target))| mk(Body::Expr(e, t), tag, style, pos, target));
-    ctx.run_strategy("expr-random", 1, ctx.tier.pick(25_000, 400_000), &strat, &nt);
+    ctx.run_strategy("expr-random", 1, ctx.tier.pick(25_000, 400_000), &strat, nt.clone());
     flush(ctx, &st, "expr-random");
     let strat = (tidy_s(expr_s(0, 0)), prop_oneof![4 => Just(0u8), 1 => ws_s()], tag_s(3), common())
         .prop_map(|(e, t, tag, (style, pos, target))| mk(Body::Expr(e, t), tag, style, pos, target));
-    ctx.run_strategy("expr-arithmetic", 2, ctx.tier.pick(12_000, 250_000), &strat, &nt);
+    ctx.run_strategy("expr-arithmetic", 2, ctx.tier.pick(12_000, 250_000), &strat, nt.clone());
     flush(ctx, &st, "expr-arithmetic");
     let strat = (tidy_s(unitized_s()), prop_oneof![4 => Just(0u8), 1 => ws_s()], tag_s(12), common())
         .prop_map(|(e, t, tag, (style, pos, target))| mk(Body::Expr(e, t), tag, style, pos, target));
-    ctx.run_strategy("expr-unitized", 3, ctx.tier.pick(10_000, 200_000), &strat, &nt);
+    ctx.run_strategy("expr-unitized", 3, ctx.tier.pick(10_000, 200_000), &strat, nt.clone());
     flush(ctx, &st, "expr-unitized");
     let strat = (tidy_s(expr_s(1, 2)), damage_s(), tag_s(3), common())
         .prop_map(|(e, d, tag, (style, pos, target))| mk(Body::Bad(e, d), tag, style, pos, target));
-    ctx.run_strategy("expr-damaged", 4, ctx.tier.pick(6_000, 120_000), &strat, &nt);
+    ctx.run_strategy("expr-damaged", 4, ctx.tier.pick(6_000, 120_000), &strat, nt.clone());
     flush(ctx, &st, "expr-damaged");
 
     // --- exhaustive three-operand expressions ------------------------------------------------
@@ -2202,7 +2203,7 @@ fn generate(ctx: &mut Ctx<C19>) {
         let tag = if matches!(tag, Tag::None | Tag::Radians) { tag } else { Tag::None };
         Some(mk(Body::Lit(s, 0, 0), tag, style, pos, target))
     });
-    ctx.run_strategy("literal-random-f64", 5, ctx.tier.pick(20_000, 400_000), &strat, &nt);
+    ctx.run_strategy("literal-random-f64", 5, ctx.tier.pick(20_000, 400_000), &strat, nt.clone());
     let strat = (any::<u32>(), any::<u8>(), any::<bool>(), style_s(), pos_s(), prop_oneof![1 => Just(Target::F64), 3 => Just(Target::F32)]).prop_filter_map(
         "non-finite",
         |(bits, how, neg, style, pos, target)| {
@@ -2211,7 +2212,7 @@ fn generate(ctx: &mut Ctx<C19>) {
             Some(mk(Body::Lit(s, 0, 0), Tag::None, style, pos, target))
         },
     );
-    ctx.run_strategy("literal-random-f32", 6, ctx.tier.pick(20_000, 400_000), &strat, &nt);
+    ctx.run_strategy("literal-random-f32", 6, ctx.tier.pick(20_000, 400_000), &strat, nt.clone());
     // decimal strings that are not the image of any float formatting
     let strat = ("[0-9]{1,25}", proptest::option::of("[0-9]{0,30}"), proptest::option::of((any::<bool>(), 0u8..3, 0u32..400)), any::<u8>(), common()).prop_map(
         |(i, f, e, sign, (style, pos, target))| {
@@ -2234,12 +2235,12 @@ fn generate(ctx: &mut Ctx<C19>) {
             mk(Body::Lit(s, 0, 0), Tag::None, style, pos, target)
         },
     );
-    ctx.run_strategy("literal-random-decimal", 7, ctx.tier.pick(20_000, 400_000), &strat, &nt);
+    ctx.run_strategy("literal-random-decimal", 7, ctx.tier.pick(20_000, 400_000), &strat, nt.clone());
     flush(ctx, &st, "literal");
 
     // --- token soup, strings, bytes -----------------------------------------------------------
     let strat = (soup_s(), pos_s(), target_s()).prop_map(|(s, pos, target)| mk(Body::Text(s), Tag::None, Style::Double, pos, target));
-    ctx.run_strategy("soup-tokens", 8, ctx.tier.pick(25_000, 400_000), &strat, &nt);
+    ctx.run_strategy("soup-tokens", 8, ctx.tier.pick(25_000, 400_000), &strat, nt.clone());
     // a valid expression with one random character edit
     let strat = (expr_s(1, 2), any::<u16>(), proptest::sample::select(SOUP.to_vec()), 0u8..3, target_s()).prop_map(|(e, at, tok, how, target)| {
         let text = render(&e, 0);
@@ -2259,15 +2260,15 @@ fn generate(ctx: &mut Ctx<C19>) {
         }
         mk(Body::Text(out), Tag::None, Style::Double, Pos::Root, target)
     });
-    ctx.run_strategy("soup-edited-expression", 9, ctx.tier.pick(15_000, 300_000), &strat, &nt);
+    ctx.run_strategy("soup-edited-expression", 9, ctx.tier.pick(15_000, 300_000), &strat, nt.clone());
     let strat = (proptest::collection::vec(any::<char>(), 0..10), target_s()).prop_map(|(v, target)| mk(Body::Text(v.into_iter().collect()), Tag::None, Style::Double, Pos::Root, target));
-    ctx.run_strategy("string-random", 10, ctx.tier.pick(5_000, 100_000), &strat, &nt);
+    ctx.run_strategy("string-random", 10, ctx.tier.pick(5_000, 100_000), &strat, nt.clone());
     let strat = ("\\PC{0,16}", target_s()).prop_map(|(s, target)| mk(Body::Text(s), Tag::None, Style::Double, Pos::Field, target));
-    ctx.run_strategy("string-printable", 11, ctx.tier.pick(5_000, 100_000), &strat, &nt);
+    ctx.run_strategy("string-printable", 11, ctx.tier.pick(5_000, 100_000), &strat, nt.clone());
     let alphabet: Vec<u8> = b"0123456789.eE_+-*/(): \t\npitaunfdegr!\"'#\xc3\xa9\xff\x00".to_vec();
     let strat = (prop_oneof![proptest::collection::vec(any::<u8>(), 0..24), proptest::collection::vec(proptest::sample::select(alphabet), 0..24)], target_s())
         .prop_map(|(b, target)| mk(Body::Bytes(b), Tag::None, Style::Plain, Pos::Root, target));
-    ctx.run_strategy("bytes-random", 12, ctx.tier.pick(10_000, 200_000), &strat, &nt);
+    ctx.run_strategy("bytes-random", 12, ctx.tier.pick(10_000, 200_000), &strat, nt.clone());
     flush(ctx, &st, "soup");
 
     // --- pathological inputs ------------------------------------------------------------------
@@ -2327,4 +2328,10 @@ fn main() {
         return;
     }
     engine::main::<C19>()
+}
+
+/// entry point of the libFuzzer target `fuzz/fuzz_targets/c19.rs`
+#[allow(dead_code)]
+pub fn fuzz(data: &[u8]) {
+    engine::fuzz_one::<C19>(data)
 }
